@@ -970,6 +970,7 @@ def run(ck: Check):
         X.section_translation(ck, rng, record, kbl_for)
         X.section_kbl_nonclock(ck, rng, record, kbl_newick)
         X.section_smooth_extreme(ck, rng, record)
+        X.section_date_updates(ck, rng, record)
         # dated trees in other time units: above the documented floor of heights_from_branch_lengths (eps = 1e-6 per
         # branch) the tree must come back unchanged; below it the floor acts by design (measured and recorded, not a
         # clause of C06, whose statement is about parameters <-> heights and dates -> tips)
@@ -1099,6 +1100,10 @@ def replay(path: str) -> int:
     if typ in ("route", "route-tt"):
         rc = X.replay_route(obj)
         print("VIOLATES" if rc else "property holds on this input")
+        return rc
+    if typ == "date-update":
+        rc = X.replay_date_update(obj)
+        print("VIOLATES" if rc else "property holds on this history")
         return rc
     if typ == "kbl-nonclock":
         bad, newick = X.run_nonclock(obj, kbl_newick)
